@@ -4,6 +4,8 @@ import (
 	"errors"
 	"fmt"
 	"math"
+	"strconv"
+	"strings"
 	"testing"
 
 	"pgregory.net/rapid"
@@ -11,6 +13,7 @@ import (
 	"github.com/evolbioinfo/gotree/support"
 	"github.com/evolbioinfo/gotree/tree"
 
+	"verif/internal/cli"
 	"verif/internal/gen"
 	"verif/internal/gt"
 	"verif/internal/h"
@@ -448,6 +451,114 @@ func TestC10Reject(t *testing.T) {
 				where = "last"
 			}
 			return true, []string{"kind:" + c.Kind, "pos:" + where}
+		},
+	})
+}
+
+// ---------------------------------------------------------------------------------------
+// command level: gotree compute support fbp | tbe -i ref -b boots [-t n]
+
+type CliCase struct {
+	Ref     *ref.Node   `json:"ref"`
+	Boots   []*ref.Node `json:"boots"`
+	Method  string      `json:"method"` // fbp | tbe | classical | booster
+	Threads int         `json:"threads"`
+}
+
+// supportsOfModel lists, per split, the supports shown in a Newick text.
+func supportsOfModel(tx *ref.Taxa, m *ref.Node) (map[string][]float64, error) {
+	cl, err := tx.Clades(m)
+	if err != nil {
+		return nil, err
+	}
+	out := map[string][]float64{}
+	var rerr error
+	m.Walk(func(x, p *ref.Node) {
+		if p == nil {
+			return
+		}
+		if x.IsTip() {
+			if x.Sup != nil {
+				rerr = fmt.Errorf("tip branch %q carries support %v", x.Name, *x.Sup)
+			}
+			return
+		}
+		if x.Sup != nil {
+			k := tx.Canon(cl[x])
+			out[k] = append(out[k], *x.Sup)
+		}
+	})
+	return out, rerr
+}
+
+func checkCli(c CliCase) error {
+	if !cli.Available() {
+		return fmt.Errorf("harness: gotree binary not built")
+	}
+	tx, err := ref.NewTaxa(c.Ref.Tips())
+	if err != nil {
+		return err
+	}
+	exp, err := expected(tx, c.Ref, c.Boots)
+	if err != nil {
+		return err
+	}
+	dir := cli.Scratch()
+	var boots strings.Builder
+	for _, m := range c.Boots {
+		boots.WriteString(ref.Write(m) + "\n")
+	}
+	args := []string{"compute", "support", c.Method, "-i", cli.Write(dir, "ref.nw", ref.Write(c.Ref)+"\n"), "-b", cli.Write(dir, "boot.nw", boots.String()), "-t", strconv.Itoa(c.Threads), "--silent"}
+	r := cli.Run(dir, "", args...)
+	ctx := fmt.Sprintf(" (gotree %v)\n ref %s\n%s", args, ref.Write(c.Ref), boots.String())
+	if r.Code != 0 || r.TimedOut {
+		return fmt.Errorf("command failed with status %d: %s%s", r.Code, r.Stderr, ctx)
+	}
+	m, err := ref.Parse(strings.TrimRight(r.Stdout, "\r\n"))
+	if err != nil {
+		return fmt.Errorf("output not readable: %v%s", err, ctx)
+	}
+	got, err := supportsOfModel(tx, m)
+	if err != nil {
+		return fmt.Errorf("%v%s", err, ctx)
+	}
+	tbe := c.Method == "tbe" || c.Method == "booster"
+	for k, w := range exp {
+		g := got[k]
+		if len(g) == 0 {
+			return fmt.Errorf("no support printed for split %v%s\n output %s", tx.KeyNames(k), ctx, r.Stdout)
+		}
+		for _, v := range g {
+			want := w.fbp
+			if tbe {
+				want = w.tbe
+			}
+			if !near(v, want) {
+				return fmt.Errorf("split %v: %s support %v, definition gives %v%s", tx.KeyNames(k), c.Method, v, want, ctx)
+			}
+		}
+	}
+	if tbe {
+		for k, v := range got {
+			if _, ok := exp[k]; !ok && len(v) > 0 {
+				return fmt.Errorf("TBE support %v on a branch whose split %v is trivial%s", v, tx.KeyNames(k), ctx)
+			}
+		}
+	}
+	return nil
+}
+
+func TestC10Cli(t *testing.T) {
+	h.Run(t, h.Spec[CliCase]{
+		Property: "C10", Name: "cli", Quick: 1600, Thorough: 32000,
+		Rule: "the same reference + bootstrap collections through `gotree compute support fbp|classical|tbe|booster -i ref -b boots -t 1..8`: the supports printed in the output tree are compared, split by split, with the brute-force definitions; non-trivial = >= 2 bootstrap trees",
+		Gen: func(t *rapid.T, thorough bool) CliCase {
+			b := genCase(t, false)
+			return CliCase{Ref: b.Ref, Boots: b.Boots, Method: rapid.SampledFrom([]string{"fbp", "tbe", "classical", "booster"}).Draw(t, "method"), Threads: rapid.SampledFrom([]int{1, 1, 2, 4, 8}).Draw(t, "threads")}
+		},
+		Check: checkCli,
+		Classify: func(c CliCase) (bool, []string) {
+			return len(c.Boots) >= 2, []string{"method:" + c.Method, fmt.Sprintf("threads:%d", c.Threads)}
 		},
 	})
 }
